@@ -128,18 +128,22 @@ FLIP = {"<": ">", ">": "<", "=": "="}
 
 @rule("C19", "R19.4", "`available` requires messages < max_messages and bytes < max_bytes, each counter against its own limit", floor=2)
 def r19_4(prog, out):
+    """Evaluates the availability check as a boolean function: every path on which it can answer `true` must have
+    established counter < limit for both counters -- whatever mix of early returns, `&&` / `||` and returned comparisons
+    the function is written with."""
+    from mapstate import _bool_switches
     ty, cells = fc(prog)
     pairs = {"outstanding_messages": "max_outstanding_messages", "outstanding_bytes": "max_outstanding_bytes"}
+    ALL = frozenset({"<", "=", ">"})
     for cid in availability_checks(prog, ty):
         bi = prog.info(cid)
         b = bi.body
-        trues = [blk.idx for blk in b.blocks if any(s.k == "assign" and s.lhs.is_local() and s.lhs.local == 0 and s.rv.k == "use" and s.rv.ops[0].const_bool() is True for s in blk.stmts)]
-        seen = {}
+        cmps = {}        # comparison local -> (counter, relations (counter ? limit) when the comparison is true, block)
         for blk in b.blocks:
             if blk.cleanup:
                 continue
             for i, s in enumerate(blk.stmts):
-                if s.k != "assign" or s.rv.k != "bin" or s.rv.j["op"] not in REL:
+                if s.k != "assign" or s.rv.k != "bin" or s.rv.j["op"] not in REL or not s.lhs.is_local():
                     continue
                 sides = []
                 for op in s.rv.ops:
@@ -150,12 +154,9 @@ def r19_4(prog, out):
                         t = bi.call_at(o.data)
                         if t.callee.path.endswith("::load"):
                             cs |= set(prog.receiver_origin(bi, t.args[0]).cells())
-                            # ordering
                             oo = bi.trace(t.args[1]) if len(t.args) > 1 else None
-                            if oo is not None and oo.kind == "agg":
-                                ordv = bi.agg_at(oo.data).j.get("variant")
-                                if ordv == "Relaxed":
-                                    out.undecided("%s:ordering" % prog.short(cid), bi.loc(o.data), "Relaxed load of a counter (visibility relies on Notify's own synchronisation)")
+                            if oo is not None and oo.kind == "agg" and bi.agg_at(oo.data).j.get("variant") == "Relaxed":
+                                out.undecided("%s:ordering" % prog.short(cid), bi.loc(o.data), "Relaxed load of a counter (visibility relies on Notify's own synchronisation)")
                     if o.kind == "local":
                         for (db, di) in bi.defs.get(o.data, []):
                             if di >= 0:
@@ -172,31 +173,114 @@ def r19_4(prog, out):
                 limit = [x for x in sides if x in pairs.values()]
                 if len(counter) != 1 or len(limit) != 1:
                     continue
-                key = "%s:%s" % (prog.short(cid), counter[0])
                 if pairs[counter[0]] != limit[0]:
-                    out.violation(key, bi.loc(blk.idx), "%s is compared with %s: each counter must be checked against its own limit" % (counter[0], limit[0]))
-                    seen[counter[0]] = blk.idx
+                    out.violation("%s:%s" % (prog.short(cid), counter[0]), bi.loc(blk.idx), "%s is compared with %s: each counter must be checked against its own limit" % (counter[0], limit[0]))
+                    cmps[s.lhs.local] = (counter[0], ALL, blk.idx, True)
                     continue
-                seen[counter[0]] = blk.idx
-                # relation (counter ? limit) on the arm that can still reach `true`
                 rel_true = REL[s.rv.j["op"]] if sides[0] == counter[0] else {FLIP[r] for r in REL[s.rv.j["op"]]}
-                sw = blk.term
-                arms = dict(sw.arms) if sw.k == "switch" else {}
-                bad = False
-                for arm, rel in ((sw.otherwise if sw.k == "switch" else None, rel_true), (arms.get(0), {"<", "=", ">"} - rel_true)):
-                    if arm is None:
-                        continue
-                    if any(bi.cfg.can_reach(arm, t) for t in trues) and (rel - {"<"}):
-                        bad = True
-                if bad:
-                    out.violation(key, bi.loc(blk.idx), "`available` can be answered although %s %s %s is possible (not below the limit)" % (counter[0], "/".join(sorted((rel_true if any(bi.cfg.can_reach(sw.otherwise, t) for t in trues) else {"<", "=", ">"} - rel_true) - {"<"})), limit[0]))
-                elif not trues or bi.cfg.path(0, set(trues), avoid={blk.idx}) is not None:
-                    out.violation(key, bi.loc(blk.idx), "`available` can be answered without comparing %s with its limit" % counter[0])
+                cmps[s.lhs.local] = (counter[0], frozenset(rel_true), blk.idx, False)
+        # switches deciding on a comparison, and bool locals that are (negated) copies of one
+        decide = {}
+        alias = {}       # local -> (comparison local, negated)
+        for cl in cmps:
+            alias[cl] = (cl, False)
+            for sw, tr, fa in _bool_switches(bi, cl):
+                decide[sw] = (cl, tr, fa)
+        changed = True
+        while changed:
+            changed = False
+            for blk in b.blocks:
+                if blk.cleanup:
+                    continue
+                for s in blk.stmts:
+                    if s.k == "assign" and s.lhs.is_local() and s.lhs.local not in alias and s.lhs.local != 0:
+                        if s.rv.k == "use" and s.rv.ops[0].place is not None and s.rv.ops[0].place.is_local() and s.rv.ops[0].place.local in alias \
+                                and len(bi.defs.get(s.lhs.local, [])) == 1:
+                            alias[s.lhs.local] = alias[s.rv.ops[0].place.local]
+                            changed = True
+                        elif s.rv.k == "un" and s.rv.j.get("op") == "Not" and s.rv.ops[0].place is not None and s.rv.ops[0].place.local in alias \
+                                and len(bi.defs.get(s.lhs.local, [])) == 1:
+                            c0, ng = alias[s.rv.ops[0].place.local]
+                            alias[s.lhs.local] = (c0, not ng)
+                            changed = True
+        # path enumeration
+        bad = {}
+        answered_true = 0
+        stack = [(0, (("outstanding_messages", ALL), ("outstanding_bytes", ALL)), None, (0,))]
+        steps = 0
+        while stack and steps < 5000:
+            steps += 1
+            bb, rels, ret, trail = stack.pop()
+            rel = dict(rels)
+            blk = b.blocks[bb]
+            for s in blk.stmts:
+                if s.k == "assign" and s.lhs.is_local() and s.lhs.local == 0:
+                    if s.rv.k == "use" and s.rv.ops[0].const_bool() is not None:
+                        ret = ("const", s.rv.ops[0].const_bool())
+                    elif s.rv.k == "use" and s.rv.ops[0].place is not None and s.rv.ops[0].place.is_local() and s.rv.ops[0].place.local in alias:
+                        ret = ("cmp",) + alias[s.rv.ops[0].place.local]
+                    elif s.rv.k == "bin" and False:
+                        pass
+                    else:
+                        ret = ("unknown",)
+                elif s.k == "assign" and s.lhs.is_local() and s.lhs.local in cmps and ret is None:
+                    pass
+            # `_0 = Lt(a, b)` written straight into the return place
+            for s in blk.stmts:
+                if s.k == "assign" and s.lhs.is_local() and s.lhs.local == 0 and s.rv.k == "bin" and 0 in cmps:
+                    ret = ("cmp", 0, False)
+            t = blk.term
+            if t.k == "return":
+                finals = []
+                if ret is None or ret == ("unknown",):
+                    finals.append(rel)
+                elif ret[0] == "const":
+                    if ret[1]:
+                        finals.append(rel)
                 else:
-                    out.holds(key, bi.loc(blk.idx), "true is only reachable through %s < %s" % (counter[0], limit[0]))
+                    cl, ng = ret[1], ret[2]
+                    counter, rt, cbb, _ = cmps[cl]
+                    r2 = dict(rel)
+                    r2[counter] = r2[counter] & (frozenset(ALL - rt) if ng else rt)
+                    if r2[counter]:
+                        finals.append(r2)
+                for fr in finals:
+                    answered_true += 1
+                    for c in pairs:
+                        if fr[c] - {"<"}:
+                            bad.setdefault(c, (trail, fr[c]))
+                continue
+            succs = bi.cfg.succ[bb]
+            if bb in decide:
+                cl, tr, fa = decide[bb]
+                counter, rt, cbb, _ = cmps[cl]
+                for tgt, rr in ((tr, rt), (fa, frozenset(ALL - rt))):
+                    if tgt is None or tgt in trail:
+                        continue
+                    r2 = dict(rel)
+                    r2[counter] = r2[counter] & rr
+                    if r2[counter]:
+                        stack.append((tgt, tuple(sorted(r2.items())), ret, trail + (tgt,)))
+                continue
+            for s2 in succs:
+                if s2 in trail:
+                    continue
+                stack.append((s2, tuple(sorted(rel.items())), ret, trail + (s2,)))
         for c in pairs:
-            if c not in seen:
-                out.violation("%s:%s" % (prog.short(cid), c), prog.loc(cid), "the availability check never compares %s with its limit" % c)
+            key = "%s:%s" % (prog.short(cid), c)
+            mine = [v for v in cmps.values() if v[0] == c]
+            if not mine:
+                out.violation(key, prog.loc(cid), "the availability check never compares %s with its limit" % c)
+            elif any(v[3] for v in mine):
+                continue      # reported above (wrong limit)
+            elif c in bad:
+                trail, rr = bad[c]
+                out.violation(key, bi.loc(mine[0][2]), "`available` can be answered although %s %s %s is possible (not below the limit)" % (c, "/".join(sorted(rr - {"<"})), pairs[c]),
+                              ["bb%d (%s)" % (x, bi.loc(x)) for x in trail][:10])
+            elif not answered_true:
+                out.undecided(key, prog.loc(cid), "no path of the check answers `true`")
+            else:
+                out.holds(key, bi.loc(mine[0][2]), "true is only answered on paths that established %s < %s" % (c, pairs[c]))
     # update orderings
     for b in prog.facts.lib_bodies():
         if b.impl_self != ty:
